@@ -33,6 +33,30 @@ def fracPow (a b : Rat) : M Rat :=
      else if a = 0 then throw .zeroDivision
      else pure ((a⁻¹) ^ (-b.num).toNat))
   else throw (.other "float result")
+/-- `a % b` on ints (floored: the sign of the divisor) -/
+def intMod (a b : Int) : M Int := if b = 0 then throw .zeroDivision else pure (Int.fmod a b)
+/-- `a >> n` on ints (arithmetic shift; `ValueError: negative shift count`) -/
+def intShr (a n : Int) : M Int := if n < 0 then throw .valueError else pure (a >>> n.toNat)
+/-- `a & b` on ints: two's complement of unbounded width (`-(k+1)` is the complement of `k`) -/
+def intAnd : Int → Int → Int
+  | .ofNat m, .ofNat n => ((m &&& n : Nat) : Int)
+  | .ofNat m, .negSucc n => ((Nat.bitwise (fun x y => x && !y) m n : Nat) : Int)
+  | .negSucc m, .ofNat n => ((Nat.bitwise (fun x y => !x && y) m n : Nat) : Int)
+  | .negSucc m, .negSucc n => .negSucc (m ||| n)
+/-- `a | b` on ints -/
+def intOr : Int → Int → Int
+  | .ofNat m, .ofNat n => ((m ||| n : Nat) : Int)
+  | .ofNat m, .negSucc n => .negSucc (Nat.bitwise (fun x y => !x && y) m n)
+  | .negSucc m, .ofNat n => .negSucc (Nat.bitwise (fun x y => x && !y) m n)
+  | .negSucc m, .negSucc n => .negSucc (m &&& n)
+/-- `a ^ b` on ints -/
+def intXor : Int → Int → Int
+  | .ofNat m, .ofNat n => ((m ^^^ n : Nat) : Int)
+  | .ofNat m, .negSucc n => .negSucc (m ^^^ n)
+  | .negSucc m, .ofNat n => .negSucc (m ^^^ n)
+  | .negSucc m, .negSucc n => ((m ^^^ n : Nat) : Int)
+/-- `~a` on ints -/
+def intInvert (a : Int) : Int := -a - 1
 /-- `q.denominator` of a `Fraction` -/
 def fracDenominator (q : Rat) : Int := (q.den : Int)
 /-- `q.numerator` of a `Fraction` -/
